@@ -156,6 +156,23 @@ fn parse_args(args: &[&str]) -> Result<ParsedInfo, Box<dyn Error>> {
     })
 }
 
+/// Is `entry` (below the starting point `root`) on another file system than `root`?
+/// Mirrors the test WalkDir applies for `same_file_system`.
+#[cfg(unix)]
+fn is_mount_point(entry: &WalkEntry, root: &str) -> bool {
+    use std::os::unix::fs::MetadataExt;
+    entry.depth() > 0
+        && match (std::fs::metadata(root), std::fs::metadata(entry.path())) {
+            (Ok(root), Ok(entry)) => root.dev() != entry.dev(),
+            _ => false,
+        }
+}
+
+#[cfg(not(unix))]
+fn is_mount_point(_entry: &WalkEntry, _root: &str) -> bool {
+    false
+}
+
 fn process_dir(
     dir: &str,
     config: &Config,
@@ -228,7 +245,13 @@ fn process_dir(
                 // With -depth (contents first) the directory's contents have already been
                 // visited and skip_current_dir() would drop the *parent's* remaining entries;
                 // -prune has no effect in that mode.
-                if matcher_io.should_skip_current_dir() && !config.depth_first {
+                // Under -xdev a directory on another file system is reported but never
+                // entered: there is nothing to skip either, and skip_current_dir() would
+                // drop the remaining entries of its *parent* instead.
+                if matcher_io.should_skip_current_dir()
+                    && !config.depth_first
+                    && !(config.same_file_system && is_mount_point(&entry, dir))
+                {
                     it.skip_current_dir();
                 }
             }
